@@ -12,6 +12,7 @@
 #include <amgcl/relaxation/as_preconditioner.hpp>
 #include <amgcl/solver/skyline_lu.hpp>
 #include <amgcl/adapter/zero_copy.hpp>
+#include <amgcl/deflated_solver.hpp>
 #include "harness_main.hpp"
 
 const char *CHECK_ID = "C15";
@@ -24,6 +25,10 @@ typedef amgcl::make_solver<
 typedef amgcl::make_solver<
     amgcl::relaxation::as_preconditioner<DBackend, amgcl::runtime::relaxation::wrapper>,
     amgcl::runtime::solver::wrapper<DBackend> > RelaxSolver;
+
+typedef amgcl::deflated_solver<
+    amgcl::amg<DBackend, amgcl::runtime::coarsening::wrapper, amgcl::runtime::relaxation::wrapper>,
+    amgcl::runtime::solver::wrapper<DBackend> > DeflSolver;
 
 static const char *coarsening_names[] = { "ruge_stuben", "aggregation", "smoothed_aggregation", "smoothed_aggr_emin" };
 static const char *relax_names[] = { "gauss_seidel", "ilu0", "iluk", "ilup", "ilut", "damped_jacobi", "spai0", "spai1", "chebyshev" };
@@ -64,6 +69,7 @@ struct Script {
     bool relax_only; bool allow_rebuild;
     int input_mode = 0;                                   // 0: copied (tuple adapter), 1: zero-copy of the user's arrays (rows stored diagonal-first)
     std::vector<ptrdiff_t> uptr, ucol; std::vector<double> uval;
+    std::vector<double> defvec; int ndef = 0;              // deflation vectors [ndef x n]
 };
 
 template <class S>
@@ -73,8 +79,8 @@ static S* construct(const Script &sc) {
     return new S(A.tie(), sc.prm);
 }
 
-enum { O_SOLVE = 0, O_SOLVE_ALT, O_APPLY, O_SOLVE_ZERO_RHS, O_SOLVE_NAN_RHS, O_SOLVE_INF_GUESS, O_SOLVE_SINGULAR, O_SOLVE_FAULTY, O_APPLY_NAN, O_SOLVE_CONVERGED_GUESS, O_REBUILD, O_SOLVE_HUGE, NOPKIND };
-static const char *op_names[] = { "solve", "solve_alt_matrix", "apply", "solve_zero_rhs", "solve_nan_rhs", "solve_inf_guess", "solve_singular_matrix", "solve_faulty_precond", "apply_nan", "solve_converged_guess", "rebuild", "solve_huge_rhs" };
+enum { O_SOLVE = 0, O_SOLVE_ALT, O_APPLY, O_SOLVE_ZERO_RHS, O_SOLVE_NAN_RHS, O_SOLVE_INF_GUESS, O_SOLVE_SINGULAR, O_SOLVE_FAULTY, O_APPLY_NAN, O_SOLVE_CONVERGED_GUESS, O_REBUILD, O_SOLVE_HUGE, O_OUTER_APPLY, NOPKIND };
+static const char *op_names[] = { "solve", "solve_alt_matrix", "apply", "solve_zero_rhs", "solve_nan_rhs", "solve_inf_guess", "solve_singular_matrix", "solve_faulty_precond", "apply_nan", "solve_converged_guess", "rebuild", "solve_huge_rhs", "outer_apply" };
 static int op_kind(const Op &o) { for (int i = 0; i < NOPKIND; ++i) if (o.kind == op_names[i]) return i; return O_SOLVE; }
 
 template <class S>
@@ -102,6 +108,7 @@ static OpOut do_op(S &s, const Script &sc, const Op &op, const std::vector<doubl
                 o.fired = fp.fired; break; }
             case O_APPLY_NAN: { std::vector<double> g = f; g[(size_t)a1 % n] = std::numeric_limits<double>::quiet_NaN(); s.precond().apply(g, x); break; }
             case O_SOLVE_CONVERGED_GUESS: { (void)converged_x; x = sc.xstar; std::tie(it, res) = s(sc.cur_pert ? sc.rhs_exact_pert : sc.rhs_exact, x); break; }
+            case O_OUTER_APPLY: s.apply(f, x); break;      // the bundle used as a preconditioner itself (deflated: P then projection)
             case O_SOLVE_HUGE: { std::vector<double> g = f; for (long i = 0; i < n; ++i) g[i] *= 1e300; std::tie(it, res) = s(g, x); break; }
             default: break;
         }
@@ -115,6 +122,7 @@ static OpOut do_op(S &s, const Script &sc, const Op &op, const std::vector<doubl
 
 static void rebuild(AmgSolver &s, const Script &sc, long which) { gen::Csr B = (which & 1) ? sc.Apert : sc.A; s.precond().rebuild(B.tie()); }
 static void rebuild(RelaxSolver &, const Script &, long) {}
+static void rebuild(DeflSolver &s, const Script &sc, long which) { gen::Csr B = (which & 1) ? sc.Apert : sc.A; s.precond().rebuild(B.tie()); }
 
 Plan generate(uint64_t seed, uint64_t run, bool thorough) {
     sim::rng r(seed, "world", run);
@@ -127,6 +135,7 @@ Plan generate(uint64_t seed, uint64_t run, bool thorough) {
     p.set("vseed", (long)(r.next() >> 16), 0);
     p.set("contrast", r.range(0, 2), 0);
     p.set("relax_only", r.chance(0.2) ? 1 : 0, 0);
+    p.set("deflated", r.chance(0.15) ? r.range(1, 2) : 0, 0);      // deflated_solver with 1 or 2 deflation vectors (when not relax_only)
     p.set("coarsening", r.range(0, 3), 0);
     p.set("relax", r.range(0, 8), 0);
     p.set("solver", r.range(0, 8), 0);
@@ -140,7 +149,7 @@ Plan generate(uint64_t seed, uint64_t run, bool thorough) {
     p.set("input_mode", r.chance(0.25) ? 1 : 0, 0);
     { static const long nts[] = { 1, 1, 1, 2, 3, 4, 5, 8, 17 }; p.set("nt", nts[r.below(9)], 1); }
     long nops = r.range(2, thorough ? 12 : 8);
-    static const int kinds[] = { O_SOLVE, O_SOLVE, O_SOLVE, O_SOLVE_ALT, O_APPLY, O_APPLY, O_SOLVE_ZERO_RHS, O_SOLVE_NAN_RHS, O_SOLVE_INF_GUESS, O_SOLVE_SINGULAR, O_SOLVE_FAULTY, O_SOLVE_FAULTY, O_SOLVE_FAULTY, O_APPLY_NAN, O_SOLVE_CONVERGED_GUESS, O_REBUILD, O_SOLVE_HUGE };
+    static const int kinds[] = { O_SOLVE, O_SOLVE, O_SOLVE, O_SOLVE_ALT, O_APPLY, O_APPLY, O_SOLVE_ZERO_RHS, O_SOLVE_NAN_RHS, O_SOLVE_INF_GUESS, O_SOLVE_SINGULAR, O_SOLVE_FAULTY, O_SOLVE_FAULTY, O_SOLVE_FAULTY, O_APPLY_NAN, O_SOLVE_CONVERGED_GUESS, O_REBUILD, O_SOLVE_HUGE, O_OUTER_APPLY };
     for (long i = 0; i < nops; ++i) {
         Op o; int k = kinds[r.below(sizeof kinds / sizeof kinds[0])];
         if (i + 1 == nops && k != O_SOLVE && k != O_APPLY) k = r.chance(0.5) ? O_SOLVE : O_APPLY;   // a fault after the last operation tests nothing
@@ -165,7 +174,7 @@ static void run_script(const Plan &p, const Script &sc, Result &res) {
     std::vector<uint64_t> rhs_digest; for (size_t i = 0; i < sc.rhs.size(); ++i) rhs_digest.push_back(vec_digest(sc.rhs[i]));
     std::string precond_finite = "yes";
     auto sig = [&](const char *oracle, const char *clause, const std::string &opname, const std::string &detail) {
-        Violation v; v.oracle = oracle; v.add("component", sc.relax_only ? "relaxation_as_preconditioner" : "amg"); v.add("clause", clause); v.add("op", opname);
+        Violation v; v.oracle = oracle; v.add("component", sc.relax_only ? "relaxation_as_preconditioner" : sc.ndef ? "deflated_solver" : "amg"); v.add("clause", clause); v.add("op", opname);
         v.add("solver", solver_names[p.get("solver")]); v.add("relax", relax_names[p.get("relax")]); if (!sc.relax_only) v.add("coarsening", coarsening_names[p.get("coarsening")]);
         v.add("precond_finite", precond_finite); v.detail = detail; return v; };
     bool lgmres_keep = p.get("solver") == 4 && p.get("lgmres_keep");
@@ -274,10 +283,14 @@ Result execute(const Plan &p) {
         prm.put("precond.allow_rebuild", sc.allow_rebuild);
         if (p.get("ncycle") > 1) prm.put("precond.max_levels", 4);      // a W-cycle over a deep hierarchy costs 2^levels
     }
+    sc.ndef = (!sc.relax_only && sc.input_mode == 0) ? (int)p.get("deflated", 0) : 0;
+    if (sc.ndef) { sc.defvec.resize((size_t)sc.ndef * n); for (long i = 0; i < n; ++i) { sc.defvec[i] = 1.0; if (sc.ndef > 1) sc.defvec[n + i] = (double)(i + 1) / (double)n - 0.5; }
+        if (n < 2) sc.ndef = 1;
+        prm.put("nvec", sc.ndef); prm.put("vec", sc.defvec.data()); }
     std::string varied = sc.relax_only ? apply_vary_params(p, prm, "", "", "precond.", relax_names[relax], "solver.", solver_names[solver], nt == 1)
                                        : apply_vary_params(p, prm, "precond.coarsening.", coarsening_names[coarsening], "precond.relax.", relax_names[relax], "solver.", solver_names[solver], nt == 1);
     if (solver == 4 && !p.get("lgmres_keep")) prm.put("solver.always_reset", true);
-    sim::RunStatus st = world(nt, p.sched, [&]() { if (sc.relax_only) run_script<RelaxSolver>(p, sc, res); else run_script<AmgSolver>(p, sc, res); });
+    sim::RunStatus st = world(nt, p.sched, [&]() { if (sc.relax_only) run_script<RelaxSolver>(p, sc, res); else if (sc.ndef) run_script<DeflSolver>(p, sc, res); else run_script<AmgSolver>(p, sc, res); });
     res.absorb(st); res.deviations = st.deviations;
     if (st.status) { Violation v; v.oracle = "world-terminates"; v.add("component", "amg"); v.add("clause", "deadlock-or-budget"); v.detail = st.blocked; res.fail(v); }
     size_t nops = p.ops.size();
@@ -287,7 +300,7 @@ Result execute(const Plan &p) {
     key = sim::hash_combine(key, (uint64_t)(p.get("solver") * 1000 + p.get("relax") * 100 + coarsening * 10 + p.get("relax_only")));
     res.key = key;
     js::Value s = js::Value::object();
-    s.set("precond", sc.relax_only ? "relaxation" : "amg"); s.set("coarsening", coarsening_names[coarsening]); s.set("relax", relax_names[relax]); s.set("solver", solver_names[solver]); s.set("input", sc.input_mode ? "zero_copy_diagonal_first" : "copied");
+    s.set("precond", sc.relax_only ? "relaxation" : sc.ndef ? "amg inside deflated_solver" : "amg"); if (sc.ndef) res.counts["deflated_solver_scripts"]++; s.set("coarsening", coarsening_names[coarsening]); s.set("relax", relax_names[relax]); s.set("solver", solver_names[solver]); s.set("input", sc.input_mode ? "zero_copy_diagonal_first" : "copied");
     s.set("family", gen::family_name((int)p.get("family"))); s.set("n", n); s.set("nt", nt); s.set("maxiter", p.get("maxiter")); s.set("strategy", sim::strategy_name(p.sched.strategy));
     if (!varied.empty()) { s.set("varied_parameters", varied); res.counts["varied_parameter_worlds"]++; }
     js::Value ops = js::Value::array(); for (size_t i = 0; i < p.ops.size(); ++i) { js::Value o = js::Value::array(); o.push(p.ops[i].kind); for (size_t k = 0; k < p.ops[i].a.size(); ++k) o.push(p.ops[i].a[k]); ops.push(o); }
